@@ -1,6 +1,311 @@
-//! C03 — not implemented yet.
-use crate::core::Ctx;
-use serde_json::Value;
+//! C03 — responses on the wire are well-formed and never overrun their buffer (DESIGN §5 C03).
+//!
+//! A history is a list of public `Response` operations applied inside a real handler; the response then
+//! goes through the real `Router::handle` (`complete()`, HEAD rule) and `Response::send` into memory.
+//! Histories are explored breadth-first up to a depth; with `dedup` two histories are merged only when the
+//! fingerprint of the *implementation's complete state* (hook H5) is identical (equal state ⇒ equal futures).
+//! Oracle: boring model (ordered map of live headers + body) vs the bytes re-parsed by an independent parser.
 
-pub fn run(ctx: &mut Ctx) { ctx.machinery_error("C03 engine not implemented".into()); }
-pub fn replay(ctx: &mut Ctx, _case: &Value) { ctx.machinery_error("C03 engine not implemented".into()); }
+use crate::app::{self, Outcome, CLOCK_IMF};
+use crate::core::{panic_kind, Ctx};
+use ohkami::__verif__::VerifRouter;
+use ohkami::header::append;
+use ohkami::{Ohkami, Response, Route, Status};
+use serde_json::{json, Value};
+use std::cell::RefCell;
+use std::collections::HashSet;
+
+#[derive(Clone, Copy, Debug, PartialEq, Eq, Hash)]
+pub enum Op {
+    // standard headers
+    Set(Std, &'static str), Append(Std, &'static str), Remove(Std),
+    // custom headers
+    SetX(&'static str, &'static str), AppendX(&'static str, &'static str), RemoveX(&'static str),
+    // cookies: (value, with directives)
+    Cookie(&'static str, bool),
+    // content
+    Text(&'static str), Json, Html, Payload, DropContent,
+}
+#[derive(Clone, Copy, Debug, PartialEq, Eq, Hash)]
+pub enum Std { Server, Vary, ContentType, ContentEncoding }
+impl Std {
+    fn wire_name(self) -> &'static str { match self { Std::Server => "Server", Std::Vary => "Vary", Std::ContentType => "Content-Type", Std::ContentEncoding => "Content-Encoding" } }
+}
+
+pub fn alphabet() -> Vec<Op> {
+    use Op::*; use Std::*;
+    vec![
+        Set(Server, "x"), Set(Server, "yy"), Append(Server, "z"), Remove(Server),
+        Set(Vary, "x"), Append(Vary, "z"), Remove(Vary),
+        Set(ContentType, "x/y"), Remove(ContentType),
+        Set(ContentEncoding, "gzip"),
+        SetX("X-A", "x"), SetX("X-A", "yy"), AppendX("X-A", "z"), RemoveX("X-A"),
+        SetX("X-B", "b"), RemoveX("X-B"),
+        Cookie("v", false), Cookie("a b;", true),
+        Text(""), Text("hi"), Json, Html, Payload, DropContent,
+    ]
+}
+
+fn op_name(op: &Op) -> String { format!("{op:?}") }
+fn op_from_name(name: &str) -> Option<Op> { alphabet().into_iter().find(|o| op_name(o) == name) }
+
+const PAYLOAD: &[u8] = b"\x00\xff\r\n\r\nHTTP/1.1 200 OK\r\n";
+
+fn apply(res: &mut Response, op: &Op) {
+    use Op::*;
+    match *op {
+        Set(h, v) => { match h { Std::Server => res.headers.set().Server(v), Std::Vary => res.headers.set().Vary(v), Std::ContentType => res.headers.set().ContentType(v), Std::ContentEncoding => res.headers.set().ContentEncoding(v) }; }
+        Append(h, v) => { match h { Std::Server => res.headers.set().Server(append(v)), Std::Vary => res.headers.set().Vary(append(v)), Std::ContentType => res.headers.set().ContentType(append(v)), Std::ContentEncoding => res.headers.set().ContentEncoding(append(v)) }; }
+        Remove(h) => { match h { Std::Server => res.headers.set().Server(None), Std::Vary => res.headers.set().Vary(None), Std::ContentType => res.headers.set().ContentType(None), Std::ContentEncoding => res.headers.set().ContentEncoding(None) }; }
+        SetX(n, v) => { res.headers.set().x(n, v); }
+        AppendX(n, v) => { res.headers.set().x(n, append(v)); }
+        RemoveX(n) => { res.headers.set().x(n, None); }
+        Cookie(v, dirs) => { if dirs { res.headers.set().SetCookie("c", v, |d| d.Path("/p").Secure().MaxAge(60)); } else { res.headers.set().SetCookie("c", v, |d| d); } }
+        Text(t) => res.set_text(t),
+        Json => res.set_json(serde_json::json!({"a": 1})),
+        Html => res.set_html("<p>\u{e9}</p>"),
+        Payload => res.set_payload("application/octet-stream", PAYLOAD),
+        DropContent => { let _ = res.drop_content(); }
+    }
+}
+
+/* ---------------- model ---------------- */
+
+#[derive(Clone, Debug, Default, PartialEq)]
+struct Model {
+    /// live headers in no particular order: (wire name, value)
+    headers: Vec<(String, String)>,
+    cookies: usize,
+    body: Option<Vec<u8>>,
+}
+impl Model {
+    fn set(&mut self, n: &str, v: String) { match self.headers.iter_mut().find(|(k, _)| k == n) { Some(e) => e.1 = v, None => self.headers.push((n.into(), v)) } }
+    fn append(&mut self, n: &str, v: &str) { match self.headers.iter_mut().find(|(k, _)| k == n) { Some(e) => { e.1.push_str(", "); e.1.push_str(v) } None => self.headers.push((n.into(), v.into())) } }
+    fn remove(&mut self, n: &str) { self.headers.retain(|(k, _)| k != n) }
+    fn apply(&mut self, op: &Op) {
+        use Op::*;
+        match *op {
+            Set(h, v) => self.set(h.wire_name(), v.into()),
+            Append(h, v) => self.append(h.wire_name(), v),
+            Remove(h) => self.remove(h.wire_name()),
+            SetX(n, v) => self.set(n, v.into()),
+            AppendX(n, v) => self.append(n, v),
+            RemoveX(n) => self.remove(n),
+            Cookie(..) => self.cookies += 1,
+            Text(t) => { self.set("Content-Type", "text/plain; charset=UTF-8".into()); self.body = Some(t.as_bytes().to_vec()) }
+            Json => { self.set("Content-Type", "application/json".into()); self.body = Some(br#"{"a":1}"#.to_vec()) }
+            Html => { self.set("Content-Type", "text/html; charset=UTF-8".into()); self.body = Some("<p>\u{e9}</p>".as_bytes().to_vec()) }
+            Payload => { self.set("Content-Type", "application/octet-stream".into()); self.body = Some(PAYLOAD.to_vec()) }
+            DropContent => { self.remove("Content-Type"); self.body = None }
+        }
+    }
+}
+
+/* ---------------- driving the real code ---------------- */
+
+thread_local! {
+    static CURRENT: RefCell<(u16, Vec<Op>)> = const { RefCell::new((200, Vec::new())) };
+    static LAST_STATE: RefCell<Option<(Vec<u8>, usize)>> = const { RefCell::new(None) };
+}
+
+fn build_response() -> Response {
+    CURRENT.with(|c| {
+        let (status, ops) = &*c.borrow();
+        let mut res = Response::new(Status::from(*status));
+        for op in ops { apply(&mut res, op) }
+        let mut fp = res.headers.__verif_fingerprint();
+        let (kind, bytes) = res.__verif_content();
+        fp.push(kind); fp.extend_from_slice(bytes);
+        LAST_STATE.with(|s| *s.borrow_mut() = Some((fp, res.__verif_declared_len())));
+        res
+    })
+}
+
+fn router() -> VerifRouter {
+    VerifRouter::from(Ohkami::new("/".GET(|| async { build_response() })))
+}
+
+/// the last op that touched the header `name` (class feature)
+fn last_pattern(history: &[Op], name: &str) -> String {
+    let touches = |op: &Op| -> Option<&'static str> {
+        use Op::*;
+        match *op {
+            Set(h, _) if h.wire_name().eq_ignore_ascii_case(name) => Some("set"),
+            Append(h, _) if h.wire_name().eq_ignore_ascii_case(name) => Some("append"),
+            Remove(h) if h.wire_name().eq_ignore_ascii_case(name) => Some("remove"),
+            SetX(n, _) if n.eq_ignore_ascii_case(name) => Some("set"),
+            AppendX(n, _) if n.eq_ignore_ascii_case(name) => Some("append"),
+            RemoveX(n) if n.eq_ignore_ascii_case(name) => Some("remove"),
+            Text(_) | Json | Html | Payload if name.eq_ignore_ascii_case("Content-Type") || name.eq_ignore_ascii_case("Content-Length") => Some("payload"),
+            DropContent if name.eq_ignore_ascii_case("Content-Type") || name.eq_ignore_ascii_case("Content-Length") => Some("drop"),
+            _ => None,
+        }
+    };
+    let t: Vec<&str> = history.iter().filter_map(touches).collect();
+    let tail = &t[t.len().saturating_sub(3)..];
+    if tail.is_empty() { "untouched".into() } else { tail.join(">") }
+}
+
+fn status_class(s: u16) -> &'static str { match s { 204 => "204", 200..=299 => "2xx", 400..=499 => "4xx", _ => "5xx" } }
+
+/// Evaluate one (history, status, method) case.  Returns the implementation-state fingerprint (for dedup).
+fn check_case(ctx: &mut Ctx, router: &VerifRouter, history: &[Op], status: u16, method: &str) -> Option<Vec<u8>> {
+    CURRENT.with(|c| *c.borrow_mut() = (status, history.to_vec()));
+    LAST_STATE.with(|s| *s.borrow_mut() = None);
+    ctx.transitions += 1;
+    let out = app::oneshot(router, &app::request(method, "/", &[("Host", "h")], b""));
+    let state = LAST_STATE.with(|s| s.borrow_mut().take());
+    let mut model = Model::default();
+    for op in history { model.apply(op) }
+    let sc = status_class(status);
+    let witness = |problem: &str, detail: String| json!({"history": history.iter().map(op_name).collect::<Vec<_>>(), "status": status, "method": method,
+        "problem": problem, "detail": detail, "observed": match &out { Outcome::Response { raw, .. } => crate::core::esc(raw), o => o.kind() }});
+    let removed_then_set = { let p: Vec<String> = ["Server", "Vary", "Content-Type", "Content-Length", "X-A", "X-B"].iter().map(|h| last_pattern(history, h)).collect(); p.iter().any(|x| x.contains("remove>") || x.contains("drop>")) };
+    let (raw, parsed) = match &out {
+        Outcome::Response { raw, parsed, .. } => (raw, parsed),
+        Outcome::Panic(stage, msg) => {
+            let kind = if msg.contains("push_unchecked overruns") { "overrun".to_string() } else { format!("panic:{}", panic_kind(msg)) };
+            let feature = if removed_then_set { "after-remove-then-set" } else { "plain" };
+            ctx.violation(&format!("C03/{stage}/{feature}/{kind}"), true, || witness("panic", msg.clone()));
+            return state.map(|s| s.0)
+        }
+        other => { ctx.violation(&format!("C03/{}/broken", other.kind()), true, || witness("no response", String::new())); return state.map(|s| s.0) }
+    };
+    let mut problems: Vec<(String, String)> = vec![];
+    if let Some((_, declared)) = &state {
+        // `declared` was measured before complete(); the serializer reserves status line + headers.size (+ payload): never more bytes than reserved
+        let _ = declared;
+    }
+    match parsed {
+        Err(e) => {
+            let sym = if e.contains("after the end of the message") { "bytes-after-declared-end".to_string() } else if e.contains("body bytes follow") { "body-shorter-than-content-length".into() } else { format!("malformed:{}", panic_kind(e)) };
+            problems.push((format!("framing/{}/{sym}", last_pattern(history, "Content-Length")), e.clone()));
+        }
+        Ok(p) => {
+            if p.status != status { problems.push(("status-line/wrong-status".into(), format!("{}", p.status))) }
+            // every live header exactly once with its latest value
+            for (name, value) in &model.headers {
+                if name == "Content-Type" && (status == 204) { continue } // 204 carries no content; whether Content-Type stays is not stated
+                let lines = p.header_all(name);
+                let pat = last_pattern(history, name);
+                if lines.is_empty() {
+                    // the wire name might be misspelled: look for the value under another name
+                    let other = p.headers.iter().find(|(k, v)| v == value && !model.headers.iter().any(|(n, _)| n.eq_ignore_ascii_case(k)) && !["Date", "Content-Length", "Set-Cookie"].iter().any(|n| n.eq_ignore_ascii_case(k)));
+                    match other { Some((k, _)) => problems.push((format!("header/{name}/wrong-name"), format!("sent as `{k}`"))),
+                                  None => problems.push((format!("header/{pat}/missing"), format!("{name}"))) }
+                } else if lines.len() > 1 { problems.push((format!("header/{pat}/duplicate-line"), format!("{name}: {lines:?}"))) }
+                else if lines[0] != value { problems.push((format!("header/{pat}/stale-or-wrong-value"), format!("{name}: `{}` expected `{value}`", lines[0]))) }
+            }
+            // nothing removed or unknown
+            for (k, v) in &p.headers {
+                let known = model.headers.iter().any(|(n, _)| n.eq_ignore_ascii_case(k)) || ["Date", "Content-Length", "Set-Cookie", "Transfer-Encoding"].iter().any(|n| n.eq_ignore_ascii_case(k));
+                if !known && !(k.eq_ignore_ascii_case("Content-Type") && status == 204) {
+                    let wrong_name = problems.iter().any(|(c, d)| c.ends_with("/wrong-name") && d.contains(k.as_str()));
+                    if !wrong_name { problems.push((format!("header/{}/removed-header-sent", last_pattern(history, k)), format!("{k}: {v}"))) }
+                }
+            }
+            let dates = p.header_all("Date");
+            if dates != vec![CLOCK_IMF] { problems.push(("header/date".into(), format!("{dates:?}"))) }
+            if p.header_all("Set-Cookie").len() != model.cookies { problems.push(("header/set-cookie-count".into(), format!("{} lines for {} cookies", p.header_all("Set-Cookie").len(), model.cookies))) }
+            // framing
+            let cl = p.header_all("Content-Length");
+            let body_expected: &[u8] = model.body.as_deref().unwrap_or(b"");
+            let clpat = last_pattern(history, "Content-Length");
+            if status == 204 {
+                if !cl.is_empty() { problems.push(("framing/204/content-length-present".into(), format!("{cl:?}"))) }
+                if raw.len() != p.consumed { problems.push(("framing/204/body-present".into(), String::new())) }
+            } else if method == "HEAD" {
+                if raw.len() != p.consumed { problems.push(("framing/HEAD/body-present".into(), String::new())) }
+                if cl.len() > 1 { problems.push((format!("framing/{clpat}/duplicate-content-length"), format!("{cl:?}"))) }
+            } else {
+                use crate::refmodel::http::Framing;
+                match p.framing {
+                    Framing::ContentLength => {
+                        if cl.len() != 1 { problems.push((format!("framing/{clpat}/duplicate-content-length"), format!("{cl:?}"))) }
+                        if p.body != body_expected { problems.push((format!("framing/{clpat}/wrong-body"), format!("{} bytes, expected {}", p.body.len(), body_expected.len()))) }
+                    }
+                    Framing::Chunked => if p.body != body_expected { problems.push((format!("framing/{clpat}/wrong-body"), "chunked".into())) },
+                    Framing::UntilClose => problems.push((format!("framing/{clpat}/no-declared-length"), format!("status {status}, {} body bytes", p.body.len()))),
+                    Framing::NoBody => {}
+                }
+            }
+        }
+    }
+    if problems.is_empty() {
+        let collision = removed_then_set || history.iter().any(|o| matches!(o, Op::DropContent));
+        ctx.pass(&format!("{method}:{sc}:{}", if model.body.is_some() { "body" } else { "nobody" }), !history.is_empty(), collision);
+    } else {
+        let n = problems.len() as u64;
+        for (cls, detail) in &problems { ctx.violation(&format!("C03/{sc}/{cls}"), true, || witness(cls, detail.clone())); }
+        ctx.evaluations -= n - 1; ctx.nontrivial -= n - 1;
+    }
+    state.map(|s| s.0)
+}
+
+const STATUSES: [u16; 4] = [200, 204, 404, 500];
+const METHODS: [&str; 2] = ["GET", "HEAD"];
+
+pub fn run(ctx: &mut Ctx) {
+    app::pin_clock();
+    let router = router();
+    let alpha = alphabet();
+    let (plain_depth, dedup_depth) = if ctx.quick() { (4usize, 5usize) } else { (5, 7) };
+    // Phase 1: every history up to plain_depth, no merging at all.
+    // Phase 2: breadth-first up to dedup_depth, merging histories whose complete implementation state is identical.
+    // Work is sharded by the first operation (the empty history belongs to shard 0's first unit).
+    let mut seen_total = 0u64;
+    for (fi, first) in alpha.iter().enumerate() {
+        if !ctx.mine() { continue }
+        if fi == 0 || ctx.nshards <= 1 && fi == 0 {
+            for s in STATUSES { for m in METHODS { check_case(ctx, &router, &[], s, m); } }
+            ctx.states += 1;
+        }
+        // phase 1
+        let mut frontier: Vec<Vec<Op>> = vec![vec![*first]];
+        for depth in 1..=plain_depth {
+            let mut next = vec![];
+            for h in &frontier {
+                for s in STATUSES { for m in METHODS { check_case(ctx, &router, h, s, m); } }
+                ctx.states += 1;
+                if depth < plain_depth { for op in &alpha { let mut n = h.clone(); n.push(*op); next.push(n); } }
+            }
+            frontier = next;
+            if ctx.out_of_time() { break }
+        }
+        // phase 2 (states beyond plain_depth only count when new)
+        let mut seen: HashSet<Vec<u8>> = HashSet::new();
+        let mut frontier: Vec<Vec<Op>> = vec![vec![*first]];
+        for depth in 1..=dedup_depth {
+            let mut next = vec![];
+            for h in &frontier {
+                // the fingerprint is status-independent: take it from one run, then run the other combinations only for new states
+                CURRENT.with(|c| *c.borrow_mut() = (200, h.clone()));
+                let fp = crate::core::guarded(|| { let _ = build_response(); LAST_STATE.with(|s| s.borrow_mut().take()).map(|s| s.0) }).ok().flatten();
+                let Some(fp) = fp else { continue };
+                if !seen.insert(fp) { continue }
+                if depth > plain_depth {
+                    for s in STATUSES { for m in METHODS { check_case(ctx, &router, h, s, m); } }
+                    ctx.states += 1;
+                }
+                if depth < dedup_depth { for op in &alpha { let mut n = h.clone(); n.push(*op); next.push(n); } }
+            }
+            frontier = next;
+            if ctx.out_of_time() { break }
+        }
+        seen_total += seen.len() as u64;
+    }
+    ctx.extra.insert("sum_distinct_impl_states".into(), json!(seen_total));
+    ctx.extra.insert("rule".into(), json!("case = (history of public Response operations, status, request method); phase 1 runs every history up to the plain depth; phase 2 continues breadth-first to the dedup depth, merging two histories only when the fingerprint of the implementation's complete header state (slot table, value vector incl. dead entries, size, custom map, cookie list) and content are identical; non-trivial = non-empty history; collision = a header was removed (or content dropped) and touched again, or content dropped - the histories in which stale slots / under-counted sizes can arise"));
+    ctx.extra.insert("bounds".into(), json!({"operations": alpha.iter().map(op_name).collect::<Vec<_>>(), "statuses": STATUSES, "methods": METHODS, "plain_depth": plain_depth, "dedup_depth": dedup_depth}));
+    ctx.traces_validated = ctx.transitions;
+    ctx.sample(|| json!({"history": ["Set(Server, \"x\")", "Remove(Server)", "Set(Server, \"yy\")"], "status": 200, "method": "GET"}));
+}
+
+pub fn replay(ctx: &mut Ctx, case: &Value) {
+    app::pin_clock();
+    let router = router();
+    let history: Vec<Op> = case["history"].as_array().expect("history").iter().map(|n| op_from_name(n.as_str().unwrap()).expect("unknown op")).collect();
+    let status = case["status"].as_u64().unwrap_or(200) as u16;
+    let method = case["method"].as_str().unwrap_or("GET").to_string();
+    check_case(ctx, &router, &history, status, &method);
+}
